@@ -7,9 +7,10 @@ PID = "C12"
 def run(tier, seed):
     q = tier == "quick"
     return common.run_enum(PID, tier, seed, "MC_CacheView", "cache",
-        ["CacheView_mc.cfg", "CacheView_q_gen.cfg" if q else "CacheView_t_gen.cfg"],
+        ["CacheView_mc.cfg", "CacheView_cyc_mc.cfg", "CacheView_q_gen.cfg" if q else "CacheView_t_gen.cfg", "CacheView_cyc_gen.cfg"],
         [("CacheView_w_error_cached_across_types.cfg", "error_cached_across_types"),
-         ("CacheView_w_stream_cache_key_ignores_filters.cfg", "stream_cache_key_ignores_filters")],
+         ("CacheView_w_stream_cache_key_ignores_filters.cfg", "stream_cache_key_ignores_filters"),
+         ("CacheView_w_nested_value_cached.cfg", "nested_value_cached")],
         actions=["GetAs", "Resolve", "Data", "RawImage", "Image"],
         rule="ALL sequences of 3 (quick) / 4 (thorough) calls over {typed get as PagesNode / as Dictionary of 3 objects, resolve, Stream::data, "
              "raw_image_data, image_data} x {both caches, object cache only, stream cache only, none}; each runs on a generated document (an object "
